@@ -286,3 +286,31 @@ func (c *Ctx) countLabel(f *ssa.Function, isEvent func(ssa.Instruction) bool, sk
 	memo[f] = &res
 	return res
 }
+
+// obFollowH: like obFollow, restricted to paths feasible under assumption H,
+// with one step of path sensitivity through phi-testing branches.
+func (c *Ctx) obFollowH(what string, f *ssa.Function, trig func(ssa.Instruction) bool, disch []string, H ...string) int {
+	var trigs []ssa.Instruction
+	allInstrs(f, func(in ssa.Instruction) {
+		if trig(in) {
+			trigs = append(trigs, in)
+		}
+	})
+	for _, t := range trigs {
+		t := t
+		v := RunPend(f, PendRule{
+			Trig:     func(in ssa.Instruction) bool { return in == t },
+			Disch:    c.mustDo(disch...),
+			DeferD:   c.deferMustDo(disch...),
+			SkipEdge: c.F.SkipUnder(H...),
+			PhiOK:    c.F.PhiFeasible(H...),
+			AtExit:   true,
+		})
+		d := ""
+		if len(v) > 0 {
+			d = fmt.Sprintf("under {%s} the path from %s to the return at %s does not pass any of %v", strings.Join(H, " && "), c.P.InstrPos(t), c.P.InstrPos(v[0].At), disch)
+		}
+		c.R.Ob(c.siteKey(t, what), c.P.InstrPos(t), len(v) == 0, d)
+	}
+	return len(trigs)
+}
